@@ -27,6 +27,13 @@ impl C10 {
             terms.push(list(s.clone()));
             if !s.is_empty() { terms.push(mk_list(s.clone(), Some(var("$Tail")))); terms.push(cplx("f", vec![list(s.clone()), var("$V")])); }
         }
+        // variables that occur only inside a function term inside a complex term or list
+        let (xv, yv) = (var("$X"), var("$Y"));
+        for t in [cplx("ten", vec![func("add", vec![xv.clone(), yv.clone()])]), list(vec![func("add", vec![xv.clone(), T::Int(1)]), T::Int(5)]),
+                  cplx("known", vec![func("join", vec![atom("Hello"), xv.clone()])]), cplx("f", vec![xv.clone(), func("multiply", vec![xv.clone(), yv.clone()])]),
+                  mk_list(vec![func("subtract", vec![yv.clone(), T::Int(1)])], Some(xv.clone())), cplx("g", vec![cplx("h", vec![func("divide", vec![xv.clone(), T::Float(2.0)])])])] {
+            terms.push(t);
+        }
         C10 { terms, n_rules: if tier == Tier::Quick { 40_000 } else { 500_000 }, n_progs: if tier == Tier::Quick { 8_000 } else { 100_000 }, seed }
     }
 }
@@ -128,7 +135,16 @@ impl Workload for C10 {
         let kb = program_to_kb(&c.prog);
         let mut qterms = vec![Unifiable::Atom(c.qname.clone())];
         for a in &c.qargs { qterms.push(to_su_zero(a)); }
-        let use_text = idx3 % 2 == 1;
+        // the text route only when the text denotes the same value (a float without fractional part prints as an integer)
+        fn text_safe(t: &T) -> bool {
+            match t {
+                T::Float(f) => f.fract() != 0.0 && f.is_finite(),
+                T::Cplx(_, a) | T::Func(_, a) => a.iter().all(text_safe),
+                T::List(e, tl) => e.iter().all(text_safe) && tl.as_ref().map_or(true, |x| text_safe(x)) && !matches!(tl.as_deref(), Some(T::Anon)),
+                _ => true,
+            }
+        }
+        let use_text = idx3 % 2 == 1 && c.qargs.iter().all(text_safe);
         let qtext = format!("{}({})", c.qname, show_args(&c.qargs));
         let q = guarded(|| if use_text { parse_query(&qtext) } else { Ok(make_query(qterms.clone())) });
         let q = match q { Ok(Ok(Goal::ComplexGoal(u))) => u, Ok(Ok(_)) | Ok(Err(_)) => { out.verdict = Verdict::Skipped("query text not accepted (C19's subject)"); return out; }
